@@ -168,6 +168,11 @@ theorem pairCtx_py {E : Env} {X Y Z : Nat} (hE : EnvPy E X Y Z) {sop ops} (h : (
       simp [Leaf.beq] at hb
     · cases e; exact hT
     · cases e; exact hs
+  notList := by
+    rintro ms ⟨s, o, a', b', c', hm, he⟩
+    cases he
+    simp only [pvOps, List.mem_cons, Prod.mk.injEq, List.mem_nil_iff, or_false] at hm
+    rcases hm with ⟨_, rfl⟩ | ⟨_, rfl⟩ | ⟨_, rfl⟩ | ⟨_, rfl⟩ | ⟨_, rfl⟩ | ⟨_, rfl⟩ <;> simp only [pfvLeafOf] <;> decide
   rewrite := by
     rintro ms r hF ⟨s, o, a', b', c', hm, he⟩ hr
     cases he
